@@ -335,6 +335,49 @@ theorem pool_reuse_clean {β ν δ : Type} (lib : Lib β ν δ) (ops : List (Poo
         · exact tryPack_preserves_clean lib _ _ _ hfresh
         · exact h s hs
 
+/-! ### one borrower at a time -/
+
+/-- **Exclusive ownership under every interleaving.**  If every way out of a
+pack puts its state back AT MOST once, then after ANY sequence of pack starts
+and pack ends — overlapping arbitrarily: concurrent requests, a pack started
+inside another pack's consumer, consumers that fail or panic, packs declined
+half way, `Get` returning whichever pooled state it likes — no state is held
+by two packs in flight, no state in flight is also resting in the pool (so no
+later `Get` can hand it out), and the pool holds no state twice. -/
+theorem exclusive_ownership (puts : Exit → Nat) (hp : ∀ e, puts e ≤ 1) (evs : List OwnEv) :
+    (ownRun puts evs).borrowed.Nodup ∧ (ownRun puts evs).pool.Nodup ∧
+    ∀ x ∈ (ownRun puts evs).borrowed, x ∉ (ownRun puts evs).pool := by
+  obtain ⟨hnd, _⟩ := ownRun_inv puts hp evs
+  rw [List.nodup_append] at hnd
+  obtain ⟨h1, h2, h3⟩ := hnd
+  exact ⟨h2, h1, fun x hx hxp => h3 x hxp x hx rfl⟩
+
+/-- **`TryPack` puts its state back exactly once on every way out** (the
+deferred release), and — fact from the tree, measured on the compiled code by
+draining the pool after each kind of ending, incl. a failing transport write
+through `responseWriter.WriteMsg` — no ending leaves the same state in the
+pool twice. -/
+theorem trypack_puts_once :
+    (∀ e, tryPackPuts e = 1) ∧
+    SdnsVerif.Gen.C15.puts_after_ok ≤ 1 ∧ SdnsVerif.Gen.C15.puts_after_err ≤ 1 ∧
+    SdnsVerif.Gen.C15.puts_after_panic ≤ 1 ∧ SdnsVerif.Gen.C15.puts_after_fail ≤ 1 ∧
+    SdnsVerif.Gen.C15.puts_after_werr ≤ 1 := by
+  refine ⟨fun _ => rfl, ?_, ?_, ?_, ?_, ?_⟩ <;> decide
+
+/-- hence the pooled packer's states have one borrower at a time, whatever the history. -/
+theorem trypack_exclusive (evs : List OwnEv) :
+    (ownRun tryPackPuts evs).borrowed.Nodup ∧
+    ∀ x ∈ (ownRun tryPackPuts evs).borrowed, x ∉ (ownRun tryPackPuts evs).pool :=
+  let h := exclusive_ownership tryPackPuts (fun _ => Nat.le_refl 1) evs
+  ⟨h.1, h.2.2⟩
+
+-- the hypothesis matters: a second Put on the consumer-error path lets two later, overlapping packs share a state
+example : (ownRun (fun e => if e = Exit.consumerError then 2 else 1)
+    [.get none, .finish 0 .consumerError, .get (some 0), .get (some 0)]).borrowed = [0, 0] := by decide
+-- while the code's discipline gives the second pack a state of its own
+example : (ownRun tryPackPuts
+    [.get none, .finish 0 .consumerError, .get (some 0), .get (some 0)]).borrowed = [1, 0] := by decide
+
 /-! ### the fallback and `PackClone` -/
 
 /-- **The immutable library fallback is the library.**  For every message —
